@@ -105,6 +105,9 @@ func genC06(t *Tape, tier string) *Scenario {
 		x.MailOK = false
 	}
 	dp := DataPlan{ReadSizes: drawReadSizes(t), ParkReads: drawParks(t)}
+	if t.Chance(1, 6) {
+		dp.ReadMode = readCopy // a backend that copies the message with io.Copy
+	}
 	sc.BE.Conns = []ConnBackendPlan{{Data: []DataPlan{dp, dp}}}
 
 	lock := t.Bool()
@@ -373,6 +376,9 @@ func classifyC06(sc *Scenario, h *History, st *Stats) string {
 	if x.SizeKind != 0 {
 		st.Probes["size_parameter"]++
 	}
+	if dps := sc.BE.Conns[0].Data; dps[len(dps)-1].ReadMode == readCopy {
+		st.Probes["backend_copies_with_io.Copy"]++
+	}
 	if x.ReadOn {
 		for _, e := range dataEvents(h, 0) {
 			if e.readOns > 0 {
@@ -414,7 +420,7 @@ func init() {
 		Real:        []string{"smtp.Server.Serve/handleConn", "smtp.Conn handleMail SIZE check, handleData, handleBdat", "dataReader budget", "io.Pipe", "net/textproto", "bufio"},
 		Stub:        []string{"net.Listener (SimListener)", "net.Conn (SimConn)", "Backend/Session (SimBackend; returns the reader's error like io.ReadAll-based backends)", "clock (synctest)", "SMTP client (raw driver)"},
 		Assumptions: []string{"message size is judged on messages without dot-stuffing, where wire size and backend size coincide", "the backend propagates a reader error as its verdict"},
-		Required:    []string{"size_N+0", "size_N+1", "size_N-1", "size_far_above", "via_bdat", "via_data", "size_parameter", "earlier_transaction_BDAT_completed", "earlier_transaction_chunk_then_RSET", "earlier_transaction_BDAT_refused_for_size", "earlier_transaction_DATA_completed", "backend_reads_on_after_timeout_inside_message"},
+		Required:    []string{"size_N+0", "size_N+1", "size_N-1", "size_far_above", "via_bdat", "via_data", "size_parameter", "earlier_transaction_BDAT_completed", "earlier_transaction_chunk_then_RSET", "earlier_transaction_BDAT_refused_for_size", "earlier_transaction_DATA_completed", "backend_reads_on_after_timeout_inside_message", "backend_copies_with_io.Copy"},
 		QuickRuns:   200000, ThoroughRuns: 4000000,
 	})
 }
